@@ -222,7 +222,7 @@ func C06(c *vh.Ctx) {
 		}
 		return
 	}
-	c.Rule("the C04 step space (quick vocabulary; in the quick tier every twenty-ninth two-branch list) and the C05 walk space (quick templates; in the quick tier every sixth spec, sequences up to the bound, limits {0,2,100}, breakpoints) re-executed with deep snapshots (reflect, incl. unexported fields) of state, messages, spec, control and props before/after each call, map-identity checks on every returned state, and two identical calls compared; plus a retry family: ECMAScript actions and guards that try to remember something outside their result (globals, built-in prototypes, members of the built-in objects, the properties object, also before failing) are walked several times with equal inputs, for one machine and for many machines in turn, with nil / empty / populated step properties - every attempt must give the result of the first; non-trivial = the step/walk did something other than stay / finish normally.")
+	c.Rule("the C04 step space (quick vocabulary; in the quick tier every twenty-ninth two-branch list) and the C05 walk space (quick templates; in the quick tier every sixth spec, sequences up to the bound, limits {0,2,100}, breakpoints; plus message slices with nil entries) re-executed with deep snapshots (reflect, incl. unexported fields) of state, messages, spec, control and props before/after each call, map-identity checks on every returned state, and two identical calls compared; plus a retry family: ECMAScript actions and guards that try to remember something outside their result (globals, built-in prototypes, members of the built-in objects, the properties object, also before failing) are walked several times with equal inputs, for one machine and for many machines in turn, with nil / empty / populated step properties - every attempt must give the result of the first; non-trivial = the step/walk did something other than stay / finish normally.")
 	forEachStepCase(c, false, func(spec *core.Spec, cs stepCase, li int) {
 		if c.Quick() && len(cs.Spec.Nodes["n0"].Branches) == 2 && li%29 != 0 {
 			return // quick: no / single-branch lists in full, every twenty-ninth two-branch list
@@ -246,6 +246,11 @@ func C06(c *vh.Ctx) {
 		wi++
 		if c.Quick() && wi%6 != 0 {
 			return // quick: every sixth spec of this worker's share
+		}
+		// message slices with holes: a nil entry is "no message" to Step; whatever Walk makes of it, the slice is the caller's
+		withHoles := [][]interface{}{{walkMsgs[0], nil, walkMsgs[1]}, {nil, walkMsgs[0]}, {walkMsgs[2], nil}, {walkMsgs[0], nil, nil, walkMsgs[0], walkMsgs[1]}}
+		for _, sq := range withHoles {
+			c06Walk(c, spec, walkCase{Spec: as, Node: "n0", Bs: M{}, Msgs: sq, Limit: 100})
 		}
 		for _, st := range walkStarts {
 			for _, sq := range all {
